@@ -176,8 +176,12 @@ func runAt(feature xmpp.StreamFeature, cfg clientCfg, location, origin jid.JID, 
 	}
 	var s *xmpp.Session
 	var err error
+	var rw io.ReadWriter = conn
+	if WrapConn != nil {
+		rw = WrapConn(conn)
+	}
 	obs.panic = nd.Catch(func() {
-		s, err = xmpp.NewSession(context.Background(), location, origin, conn, 0, xmpp.NewNegotiator(func(*xmpp.Session, *xmpp.StreamConfig) xmpp.StreamConfig {
+		s, err = xmpp.NewSession(context.Background(), location, origin, rw, 0, xmpp.NewNegotiator(func(*xmpp.Session, *xmpp.StreamConfig) xmpp.StreamConfig {
 			return xmpp.StreamConfig{Features: features, TeeIn: teeIn, TeeOut: teeOut}
 		}))
 	})
@@ -359,4 +363,15 @@ func init() {
 			}
 		},
 	})
+}
+
+// WrapConn, if set, wraps the scripted connection (fault injection by C04).
+var WrapConn func(*sess.Reactive) io.ReadWriter
+
+// TLSHandshake runs the full STARTTLS + SASL + bind handshake with an explicit
+// TLS configuration against the lock-step TLS peer and reports the outcome.
+func TLSHandshake() (ready bool, errText string, p *nd.Panic) {
+	f := xmpp.StartTLS(&tls.Config{RootCAs: tlspeer.Roots(), ServerName: "example.com", MinVersion: tls.VersionTLS12})
+	obs := run(f, clientCfg{explicitTLS: true, others: true}, jid.MustParse("me@example.com/r"), 0, 0)
+	return obs.outcome == "ready-secure" || obs.outcome == "ready-insecure" || (obs.state&xmpp.Ready != 0), obs.err, obs.panic
 }
